@@ -312,6 +312,21 @@ theorem C09_walk_current_arm (W : World) (s : St) (b : Nat) (e : Ev) (hd : s.dea
   apply step_walk W s e hd
   rcases he with h | h | h <;> subst h <;> simp [stepOkB]
 
+/-- Every disconnect is reported: in the current arm, consuming the `Disconnected` that names the current block delivers
+exactly the disconnected callback for it (with the current height) and moves the stamp to the notification's new tip —
+whatever the chain source holds by then (the model never looks the parent up: `ntfn.ChainTip()`). -/
+theorem C09_disconnect_reported (W : World) (s : St) (tip : Nat) (hd : s.dead = false) (hc : s.current = true) :
+    (step W s (.disconnected s.cur tip)).2 = [Cb.disc s.curH s.cur] ∧
+    (step W s (.disconnected s.cur tip)).1.cur = tip ∧
+    (step W s (.disconnected s.cur tip)).1.curH = s.curH - 1 ∧
+    discReported s.cur s.cur (step W s (.disconnected s.cur tip)).2 = true := by
+  simp [step, hd, hc, discReported, isDiscOf]
+
+/-- non-vacuity / sharpness of the oracle: silence on such a notification is rejected -/
+example : discReported 6 6 [] = false := by decide
+example : discReported 6 6 [.disc 5 6] = true := by decide
+example : discReported 6 7 [] = true := by decide
+
 /-- a reorganisation that stays above the rescan's height keeps its current block on the best chain (so the hypothesis of
 `C09_walk_partial` can only be lost by a reorganisation reaching at/below it, or by growth never) -/
 theorem C09_reorg_above_keeps_cur (s : St) (d : Nat) (bs : List Nat) (W : World)
